@@ -71,7 +71,7 @@ def run(chk):
     for c, (t_ns, burst, evs), a, b in zip(cases, parsed, ci, cm):
         chk.evaluations += 1
         chk.count("gcra")
-        if a.startswith(("PANIC", "CRASH", "TIMEOUT")):
+        if a.startswith(("PANIC", "CRASH", "TIMEOUT", "HANG")):
             chk.monitor_fail("limiter panicked", dict(case=c, impl=a))
             continue
         outs = a.split()
@@ -104,7 +104,7 @@ def run(chk):
         chk.count("ratelayer")
         t = c.split()
         mode, period, burst = t[1], int(t[2]), int(t[3])
-        if a.startswith(("PANIC", "CRASH", "TIMEOUT")):
+        if a.startswith(("PANIC", "CRASH", "TIMEOUT", "HANG")):
             chk.monitor_fail("rate limit layer panicked / hung", dict(case=c, impl=a))
             continue
         res, inv = a.split(" | ")
